@@ -203,9 +203,22 @@ class Analysis:
 
     def block(self, stmts, states) -> Out:
         out = Out(normal=set(states))
+        prev = None
         for s in stmts:
             if not out.normal:
                 break
+            # `work = [x]` (or deque([x])) immediately followed by `while work:`: the first test cannot fail
+            self._nonempty_at_entry = (
+                isinstance(s, ast.While) and isinstance(s.test, ast.Name) and isinstance(prev, (ast.Assign, ast.AnnAssign))
+                and isinstance(getattr(prev, "value", None), (ast.List, ast.Tuple, ast.Call))
+                and [getattr(t, "id", None) for t in (prev.targets if isinstance(prev, ast.Assign) else [prev.target])] == [s.test.id]
+                and (
+                    (isinstance(prev.value, (ast.List, ast.Tuple)) and len(prev.value.elts) > 0 and not any(isinstance(e, ast.Starred) for e in prev.value.elts))
+                    or (isinstance(prev.value, ast.Call) and ast.unparse(prev.value.func).split(".")[-1] in ("deque", "list") and len(prev.value.args) == 1 and not prev.value.keywords
+                        and isinstance(prev.value.args[0], (ast.List, ast.Tuple)) and len(prev.value.args[0].elts) > 0 and not any(isinstance(e, ast.Starred) for e in prev.value.args[0].elts))
+                )
+            )
+            prev = s
             o = self.stmt(s, out.normal)
             out.normal = set()
             out.absorb(o, normal=True)
@@ -299,6 +312,8 @@ class Analysis:
         cur = set(states)
         exits: Set = set()
         self.loop_stack.append(s)
+        certain_first = bool(getattr(self, "_nonempty_at_entry", False)) and isinstance(s, ast.While)
+        self._nonempty_at_entry = False
         try:
             for _ in range(self.loop_iter_cap):
                 new = cur - seen_heads
@@ -310,6 +325,8 @@ class Analysis:
                     enter = self._conds(new, s.test, True)
                     leave = self._conds(new, s.test, False)
                     if isinstance(s.test, ast.Constant) and s.test.value is True:
+                        leave = set()
+                    if certain_first and _ == 0:
                         leave = set()
                 else:
                     self._exc_of(s.iter, new, out)
